@@ -38,6 +38,20 @@ def _verify_one(job):
     try:
         load_contracts()
         from pyvc import verify
+        if kind == 'static':
+            from pyvc import api as _api
+            t0 = time.time()
+            props, fn, note = _api.STATICS[name]
+            try:
+                ok, detail = fn()
+                # a scan that does not find its pattern is *undecided* (the code may have been refactored harmlessly): the bounded tier decides
+                status = 'proved' if ok else 'unknown'
+            except Exception:
+                ok, detail, status = False, traceback.format_exc()[-600:], 'unknown'
+            return {'ident': 'static::' + name, 'status': 'PROVED' if status == 'proved' else 'UNDECIDED',
+                    'detail': detail[:600], 'paths': 0, 'vcs': 1, 'time_s': round(time.time() - t0, 3), 'assumptions': [], 'source_sha': '', 'line': 0,
+                    'obligations': {name: {'kind': 'ensures', 'clause': note or name, 'paths': 1, 'status': status, 'time_s': round(time.time() - t0, 3),
+                                           'backend': 'ast-scan', 'note': detail[:400]}}}
         if kind == 'fn':
             r = verify.verify_function(name, case=job[2] if len(job) > 2 else None)
         else:
@@ -61,6 +75,7 @@ def run_verification(pid, nproc=None):
             else:
                 jobs.append(('fn', ident))
     jobs += [('lemma', n) for n, l in api.LEMMAS.items() if pid in l.props]
+    jobs += [('static', n) for n, (props, _fn, _note) in api.STATICS.items() if pid in props]
     trusted = [ident for ident in api.ORDER if pid in api.REGISTRY[ident].props and api.REGISTRY[ident].trusted]
     nproc = nproc or min(16, max(1, len(jobs)))
     t0 = time.time()
